@@ -268,7 +268,7 @@ CLAIMED["C10"] = {
             "program, a syntax error or 'outside the model'. Obligations over regenerated tables: token rule order, regex texts, "
             "t_ignore; grammar size and automaton. (2) LAYOUT IRRELEVANCE (C10_layout_irrelevance, C10_same_denotation): for EVERY "
             "surface program - quoted strings with either quote character and any escapes, integers and decimals in any spelling "
-            "the token rules accept, unquoted identifiers, lists at any nesting and dictionaries and argument lists with or "
+            "the token rules accept, unquoted identifiers, unquoted text of several tokens (paths, words, numerals inside), lists at any nesting, dictionaries with quoted or unquoted keys, and argument lists, with or "
             "without trailing commas, commands in the Result = Command(...) or the EEMS 2.0 COMMAND(...) form - and ANY gaps (blanks, tabs, LF/CR/CRLF line breaks, blank lines, comments, a final comment "
             "without line break) before, between and after its tokens, the text parses to a program of the right version with the same "
             "commands, names and, for every argument, the denotation of what was written; two renderings with the same denotation "
@@ -276,9 +276,8 @@ CLAIMED["C10"] = {
             "(STRING self-delimiting, INT/FLOAT/ID delimited by what may follow), simulation of the LALR automaton over the "
             "regenerated tables per syntactic category incl. the trailing-comma productions, and evaluation of the semantic "
             "actions; all hypotheses are computable booleans. The canonical layout of the serialiser is an instance for every "
-            "program (C15). PARTIAL: NOT proved for the forms outside the surface family - unquoted multi-word / colon text "
-            "(plain_string productions, PLAIN_STRING tokens), dictionaries with unquoted keys or list "
-            "values; these are covered by differential runs only: random programs x layouts, corruptions, token soups, unquoted "
+            "program (C15). PARTIAL: NOT proved for the forms outside the surface family - unquoted text with colons, "
+            "dictionaries with list values, mixed lists; these are covered by differential runs only: random programs x layouts, corruptions, token soups, unquoted "
             "multi-word values, compared with the real parser node for node, line numbers included. The evidence counts how many "
             "generated renderings are instances of the theorem (Coq re-assembles each text from its decomposition and evaluates the "
             "hypotheses).",
